@@ -14,13 +14,24 @@
 (*     stderr,                                                               *)
 (*   hooks = stream identities seen by layer hooks (between tests),          *)
 (*   phases = stream identities seen inside tests, restored (after the run). *)
+(* Records of command-line runs whose layers ran in subprocesses (-j N, or   *)
+(* resumed after a tearDown that is not implemented) have child = TRUE and   *)
+(*   procs = one [child, base, hooks, phases] per process that ran tests:    *)
+(*     base = the <<stdout, stderr>> identities the first layer hook of the  *)
+(*     process saw before any of its tests ran (in a child the harness took  *)
+(*     its reference objects before process.py rebound sys.stderr, so the    *)
+(*     pair need not be <<"orig", "orig">> there), hooks / phases = the      *)
+(*     pairs seen by every later hook / test phase of that process,          *)
+(*   hookToks = tokens the testSetUp / testTearDown hooks wrote to           *)
+(*     sys.stdout / sys.stderr between tests: they reach the runner's output *)
+(*     once per write iff the name still denotes the process's original one. *)
 (* P-spec: the clauses of the statement (StdStreams.tla: NoLeak, Complete,   *)
 (* Attributed, Restored, NeverReplaced); I-spec: the output predicted by     *)
 (* folding DoStart / DoWrite / DoEvent / DoStop over the history (DRIFT).    *)
 EXTENDS Naturals, Sequences, FiniteSets, TLC, Json, IOUtils, SequencesExt
 
 S == INSTANCE StdStreams WITH NT <- 0, MaxW <- 0, MaxE <- 0, MaxR <- 0,
-                              Buffer <- FALSE, Deviations <- {}, st <- 0, n <- 0,
+                              Buffer <- FALSE, Deviations <- {}, Starts <- {}, st <- 0, n <- 0,
                               pc <- 0, nw <- 0, nr <- 0, evs <- 0, wr <- 0,
                               term <- 0, tamp <- 0
 
@@ -59,10 +70,15 @@ RunTests(s, on, ts, j) ==
            s2 == RunSeq(s1, on, t.t, sq, 1)
        IN RunTests(S!DoStop(s2, on, {}), on, ts, j + 1)
 
-Predicted(r) == RunTests(S!S0, r.buffer, r.tests, 1).out
-ObservedAll(r) == [j \in 1..Len(r.items) |->
-                     IF r.items[j].k = "H" THEN <<"H", r.items[j].t>>
-                     ELSE <<"T", r.items[j].tok>>]
+Predicted(r) == RunTests(IF r.child THEN S!S0c ELSE S!S0, r.buffer, r.tests, 1).out
+ObservedAll(r) ==
+  LET its == SelectSeq(r.items, LAMBDA x : ~(x.k = "T" /\ x.tok \in ToSet(r.hookToks)))
+  IN [j \in 1..Len(its) |->
+        IF its[j].k = "H" THEN <<"H", its[j].t>> ELSE <<"T", its[j].tok>>]
+
+(* the identities a process must show between tests: its own before the      *)
+(* first test (a child), the original objects (the invoking process)         *)
+Home(p) == IF p.child THEN p.base ELSE <<"orig", "orig">>
 
 (* ---- P-spec -------------------------------------------------------------*)
 Verdict(r) ==
@@ -80,8 +96,17 @@ Verdict(r) ==
       mis == {j \in T : \E x \in ToSet(Writes(r.tests[j].seq)) :
                  \E p \in Occ(r.items, x.tok) : LastHeader(r.items, p) # r.tests[j].t}
   IN IF \E j \in 1..Len(r.hooks) : r.hooks[j] # "orig" THEN <<"C13:not-restored", "between-tests">>
-     ELSE IF ~r.restored THEN <<"C13:not-restored", "after-run">>
+     ELSE IF \E i \in 1..Len(r.procs) : \E j \in 1..Len(r.procs[i].hooks) :
+                r.procs[i].hooks[j] # Home(r.procs[i])
+          THEN <<"C13:not-restored", "between-tests">>
+     ELSE IF \E j \in 1..Len(r.hookToks) : Cardinality(Occ(all, r.hookToks[j])) #
+                Cardinality({i \in 1..Len(r.hookToks) : r.hookToks[i] = r.hookToks[j]})
+          THEN <<"C13:not-restored", "between-tests-write">>
+     ELSE IF ~r.child /\ ~r.restored THEN <<"C13:not-restored", "after-run">>
      ELSE IF ~r.buffer /\ \E j \in 1..Len(r.phases) : r.phases[j] # "orig"
+          THEN <<"C13:replaced-without-buffer", "">>
+     ELSE IF ~r.buffer /\ \E i \in 1..Len(r.procs) : \E j \in 1..Len(r.procs[i].phases) :
+                r.procs[i].phases[j] # Home(r.procs[i])
           THEN <<"C13:replaced-without-buffer", "">>
      ELSE IF r.crashed # "" THEN <<"C13:run-aborted", r.crashed>>
      ELSE IF r.buffer /\ leak # {} THEN <<"C13:leak", r.tests[CHOOSE j \in leak : TRUE].t>>
